@@ -61,6 +61,111 @@ class G:
                 work.append(tb)
         return seen
 
+    # ------------------------------------------------ feasibility-aware reachability
+    def switch_place(self, bb):
+        """If block bb switches on `discriminant(P)`, return P as a hashable key."""
+        cache = self.__dict__.setdefault("_swp", {})
+        if bb in cache:
+            return cache[bb]
+        t = self.fn["blocks"][bb]["t"]
+        res = None
+        if t[0] == "switch" and t[1][0] in ("c", "m") and not t[1][1][1]:
+            l = t[1][1][0]
+            ds = self.defs().get(l, [])
+            if len(ds) == 1 and ds[0][0] == "stmt" and ds[0][3][0] == "discr":
+                pl = ds[0][3][1]
+                res = (pl[0], tuple(pl[1]))
+        cache[bb] = res
+        return res
+
+    def kills(self, bb):
+        """Locals wholly (re)assigned in block bb."""
+        cache = self.__dict__.setdefault("_kills", {})
+        if bb in cache:
+            return cache[bb]
+        ks = set()
+        b = self.fn["blocks"][bb]
+        for s in b["s"]:
+            if s[0] == "=" and not s[1][1]:
+                ks.add(s[1][0])
+            elif s[0] == "sd":
+                ks.add(s[1][0])
+        t = b["t"]
+        if t[0] == "call":
+            ks.add(t[3][0])
+        cache[bb] = ks
+        return ks
+
+    def edge_know(self, b, tb, lab, know):
+        """Knowledge after taking edge b->tb, or None if the edge contradicts `know`
+        (a re-test of a discriminant whose value is already fixed on this path)."""
+        pl = self.switch_place(b)
+        if pl is None:
+            return know
+        t = self.fn["blocks"][b]["t"]
+        if lab == "otherwise":
+            listed = frozenset(int(v) for v, _ in t[2])
+            cur = dict(know).get(pl)
+            if cur is not None and cur[0] == "is" and cur[1] in listed:
+                return None
+            if cur is not None:
+                return know
+            return know | {(pl, ("not", listed))}
+        cur = dict(know).get(pl)
+        if cur is not None:
+            if cur[0] == "is" and cur[1] != lab:
+                return None
+            if cur[0] == "not" and lab in cur[1]:
+                return None
+        return frozenset(x for x in know if x[0] != pl) | {(pl, ("is", lab))}
+
+    def reach_k(self, starts, avoid_blocks=(), avoid_edges=()):
+        """Like reach(), but starts = [(block, knowledge)] and paths that re-test a
+        discriminant with a contradicting outcome are not followed.  Returns
+        {block: predecessor-state} for path reconstruction via path_k()."""
+        avoid_blocks = set(avoid_blocks)
+        avoid_edges = set(avoid_edges)
+        seen = {}
+        work = []
+        for b, k in starts:
+            if b in avoid_blocks:
+                continue
+            k = frozenset(x for x in k if x[0][0] not in self.kills(b))
+            work.append(((b, k), None))
+        blocks = {}
+        while work:
+            st, prev = work.pop()
+            if st in seen:
+                continue
+            seen[st] = prev
+            b, know = st
+            blocks.setdefault(b, st)
+            for tb, lab in self.succ[b]:
+                if tb in avoid_blocks:
+                    continue
+                if (b, tb, lab) in avoid_edges or (b, tb) in avoid_edges:
+                    continue
+                k2 = self.edge_know(b, tb, lab, know)
+                if k2 is None:
+                    continue
+                kl = self.kills(tb)
+                if kl:
+                    k2 = frozenset(x for x in k2 if x[0][0] not in kl)
+                st2 = (tb, k2)
+                if st2 not in seen:
+                    work.append((st2, st))
+        self._last_seen = seen
+        return blocks
+
+    def path_k(self, blocks, dst):
+        st = blocks.get(dst)
+        out = []
+        seen = self._last_seen
+        while st is not None:
+            out.append(st[0])
+            st = seen.get(st)
+        return out[::-1]
+
     def reachable_blocks(self):
         if self._reach0 is None:
             self._reach0 = self.reach([0])
